@@ -46,22 +46,35 @@ pub fn openssl_ca(d: &Value, key: &KeyInfo) -> Result<Vec<u8>, String> {
 	use openssl::bn::BigNum;
 	use openssl::hash::MessageDigest;
 	use openssl::x509::extension::*;
-	use openssl::x509::{X509Builder, X509NameBuilder};
+	use openssl::x509::X509Builder;
 	let e = |x: openssl::error::ErrorStack| x.to_string();
 	let pkey = PKey::private_key_from_der(&key.pkcs8).map_err(e)?;
-	let mut nb = X509NameBuilder::new().map_err(e)?;
-	for ent in d["dn"].as_array().unwrap() {
-		let text = text_of(&ent["val"]);
-		let kind = sval(ent, "kind");
-		// transfer-encode for the two wide types (ASCII-only texts are used so the bytes stay valid UTF-8 for the binding)
-		let enc: String = match kind.as_str() {
-			"bmp" => text.chars().flat_map(|c| ['\0', c]).collect(),
-			"universal" => text.chars().flat_map(|c| ['\0', '\0', '\0', c]).collect(),
-			_ => text.clone(),
-		};
-		nb.append_entry_by_text_with_type(&sval(ent, "ty"), &enc, asn1_type(&kind)).map_err(e)?;
-	}
-	let name = nb.build();
+	// the name is built through the C interface: it alone lets an attribute join the previous RDN (multi-valued RDN)
+	let name = {
+		use foreign_types::ForeignType;
+		let raw = unsafe { openssl_sys::X509_NAME_new() };
+		if raw.is_null() {
+			return Err("X509_NAME_new".into());
+		}
+		let name = unsafe { openssl::x509::X509Name::from_ptr(raw) };
+		for ent in d["dn"].as_array().unwrap() {
+			let text = text_of(&ent["val"]);
+			let kind = sval(ent, "kind");
+			// transfer-encode for the two wide types
+			let enc: Vec<u8> = match kind.as_str() {
+				"bmp" => text.chars().flat_map(|c| [0u8, c as u8]).collect(),
+				"universal" => text.chars().flat_map(|c| [0u8, 0, 0, c as u8]).collect(),
+				_ => text.clone().into_bytes(),
+			};
+			let field = std::ffi::CString::new(sval(ent, "ty")).map_err(|x| x.to_string())?;
+			let set = if ent["join"].as_bool().unwrap_or(false) { -1 } else { 0 };
+			let ok = unsafe { openssl_sys::X509_NAME_add_entry_by_txt(raw, field.as_ptr() as *const _, asn1_type(&kind).as_raw(), enc.as_ptr(), enc.len() as std::os::raw::c_int, -1, set) };
+			if ok != 1 {
+				return Err(format!("X509_NAME_add_entry_by_txt: {}", openssl::error::ErrorStack::get()));
+			}
+		}
+		name
+	};
 	let mut b = X509Builder::new().map_err(e)?;
 	b.set_version(2).map_err(e)?;
 	let serial = BigNum::from_slice(&bytes_of(&d["serial"])).map_err(e)?;
